@@ -469,6 +469,17 @@ pub fn run_col(c: &ColCase) -> CaseOut {
             return out;
         }
     }
+    // ties under a first key that is equal for all rows by value (x * 0 is 0.0 or -0.0 for floats) are broken by the second key
+    if ty <= 5 {
+        let q = "SELECT c FROM t WHERE c IS NOT NULL ORDER BY c * 0, c DESC";
+        let got = sql1!(q);
+        let want: Vec<Val> = vals.iter().filter(|v| !v.is_null()).cloned().collect();
+        let finite = want.iter().all(|v| v.as_f64().map(|f| f.abs() < 1e300).unwrap_or(true));
+        if finite && (!multiset_eq(&got, &want) || !sorted_ref(&got, true)) {
+            out.failure = Some(fail("order_by_tie_not_broken_by_second_key", format!("`{q}`: the first key is zero for every row, so the rows must come back in descending order of c; got [{}]", got.iter().map(lit).collect::<Vec<_>>().join(", "))));
+            return out;
+        }
+    }
     // equivalence classes
     let mut classes: Vec<(Val, usize)> = vec![];
     for v in &vals {
